@@ -60,6 +60,7 @@ type namedTerm struct {
 }
 
 type Exec struct {
+	declErrors   []string // ghost / spec declarations that no longer type-check
 	forceNoPanic bool // sweep: explicit panics are obligations in every function
 	cfn         *ssa.Function // closure whose contract is being evaluated at a call site
 	cbind       []Val
